@@ -84,12 +84,12 @@ func c12Setup(t *testing.T) *c12Twins {
 func c12Renew(t *testing.T) {
 	var err error
 	if old := c12T; old.mA != nil {
-		// addresses are never reused; closing the old servers also kills zombies
+		// The old servers stay up (abandoned): closing them would let the OS hand their
+		// ports to new servers, and the wrapper's process-wide client manager still
+		// holds a client with dead pooled connections for such an address.
 		old.admA.Close()
 		old.rawB.Close()
 		old.blockA.Close()
-		go old.mA.Close()
-		go old.mB.Close()
 	}
 	if c12T.mA, err = miniredis.Run(); err != nil {
 		t.Fatalf("miniredis A: %v", err)
